@@ -5,7 +5,7 @@ import ast
 import re
 from fractions import Fraction
 
-from ..core.repo import (AnalysisError, Repo, call_name, calls_in, definitions, dotted, is_const,
+from ..core.repo import (AnalysisError, Repo, call_name, calls_in, definitions, dotted, func_params, is_const,
                          unparse, walk_no_nested_defs)
 from ..domains.algnf import NotArithmetic, Poly, Rat, from_ast
 from ..domains.codec import flatten_if_chain
@@ -321,19 +321,48 @@ def _rule_polar(check, dmod, fn) -> None:
         raise AnalysisError("_torch_polar: SVD unpacking not found")
     U, Sg, Vh = svd
 
-    def atoms(e: ast.AST) -> list[str]:
+    arg = func_params(fn)[0]
+    full = not any(kw.arg == "full_matrices" and is_const(kw.value, False) for n in ast.walk(fn) if isinstance(n, ast.Call) and (call_name(n) or "").endswith("linalg.svd") for kw in n.keywords)
+    if not full:
+        raise AnalysisError("_torch_polar: reduced SVD (full_matrices=False) — U/Vh are not known to be unitary")
+
+    def adj(seq: list[str]) -> list[str]:
+        return [a if a == "S" else (a[:-2] if a.endswith("^H") else a + "^H") for a in reversed(seq)]
+
+    def adjoint_of(e: ast.AST):
+        """X when e is X^H in one of torch's spellings"""
+        if isinstance(e, ast.Attribute) and e.attr in ("mH", "H"):
+            return e.value
+        if isinstance(e, ast.Call) and isinstance(e.func, ast.Attribute) and not e.args and e.func.attr == "adjoint":
+            return e.func.value
+        if isinstance(e, ast.Call) and isinstance(e.func, ast.Attribute) and not e.args and e.func.attr in ("conj", "conj_physical"):
+            x = e.func.value
+            if isinstance(x, ast.Attribute) and x.attr in ("T", "mT"):
+                return x.value
+            if isinstance(x, ast.Call) and isinstance(x.func, ast.Attribute) and x.func.attr == "transpose" and [unparse(a) for a in x.args] in (["-2", "-1"], ["-1", "-2"], ["0", "1"], ["1", "0"]):
+                return x.func.value
+        if isinstance(e, ast.Attribute) and e.attr in ("T", "mT") and isinstance(e.value, ast.Call) and isinstance(e.value.func, ast.Attribute) \
+                and e.value.func.attr == "conj" and not e.value.args:
+            return e.value.func.value
+        return None
+
+    def atoms(e: ast.AST, depth: int = 0) -> list[str]:
+        if depth > 8:
+            raise AnalysisError("_torch_polar: definition chain too deep")
         if isinstance(e, ast.BinOp) and isinstance(e.op, ast.MatMult):
-            return atoms(e.left) + atoms(e.right)
+            return atoms(e.left, depth + 1) + atoms(e.right, depth + 1)
+        inner = adjoint_of(e)
+        if inner is not None:
+            return adj(atoms(inner, depth + 1))
         if isinstance(e, ast.Name):
             if e.id in (U, Vh):
                 return [e.id]
+            if e.id == arg and not definitions(fn, e.id):
+                return [U, "S", Vh]  # the argument IS its singular value decomposition
             dd = [x for x in definitions(fn, e.id) if isinstance(x, ast.AST)]
             if len(dd) == 1:
-                return atoms(dd[0])
+                return atoms(dd[0], depth + 1)
         t = unparse(e)
-        for base in (U, Vh):
-            if t in (f"{base}.T.conj()", f"{base}.conj().T", f"{base}.mH", f"{base}.H", f"{base}.adjoint()", f"{base}.transpose(-2, -1).conj()"):
-                return [base + "^H"]
         if Sg in {n.id for n in ast.walk(e) if isinstance(n, ast.Name)} and "diag" in t:
             return ["S"]
         raise AnalysisError(f"_torch_polar: factor `{t}` not understood")
@@ -346,8 +375,8 @@ def _rule_polar(check, dmod, fn) -> None:
     def reduce(seq):
         out = []
         for a in seq:
-            if out and ((out[-1] == Vh and a == Vh + "^H") or (out[-1] == Vh + "^H" and a == Vh and False)
-                        or (out[-1] == U + "^H" and a == U)):
+            # full SVD of a square matrix: U and Vh are unitary on both sides
+            if out and any((out[-1], a) in ((X, X + "^H"), (X + "^H", X)) for X in (U, Vh)):
                 out.pop()
             else:
                 out.append(a)
